@@ -184,12 +184,14 @@ void verif_init(int kmax) {
   __CPROVER_assume(m4ri_codebook != NULL);
 #endif
   for (int k = 1; k <= kmax; ++k) {
-    m4ri_codebook[k]      = (code *)calloc(1, sizeof(code));
-    m4ri_codebook[k]->ord = (int *)calloc(__M4RI_TWOPOW(k), sizeof(int));
-    m4ri_codebook[k]->inc = (int *)calloc(__M4RI_TWOPOW(k), sizeof(int));
+    code *cb = (code *)calloc(1, sizeof(code));
+    int *o  = (int *)calloc(__M4RI_TWOPOW(k), sizeof(int));
+    int *ic = (int *)calloc(__M4RI_TWOPOW(k), sizeof(int));
 #ifndef REPLAY
-    __CPROVER_assume(m4ri_codebook[k] && m4ri_codebook[k]->ord && m4ri_codebook[k]->inc);
+    __CPROVER_assume(cb != NULL && o != NULL && ic != NULL); /* set-up, not part of any scenario */
 #endif
+    cb->ord = o; cb->inc = ic;
+    m4ri_codebook[k] = cb;
     m4ri_build_code(m4ri_codebook[k]->ord, m4ri_codebook[k]->inc, k);
   }
 }
